@@ -432,15 +432,17 @@ CountLines(level, ems) ==
 
 \* the two sinks: the same lines on the console (if `console`) and in the log file (if `file`), nothing otherwise
 SinkLines(cfg, sink, ems) == IF (sink = "console" /\ cfg.console) \/ (sink = "file" /\ cfg.file) THEN CountLines(cfg.level, ems) ELSE {}
-\* comparison of observed line counts with the expected ones.  ThreadPoolOverload also fires whenever the machine is slow
-\* (a task waited > 100 ms for a worker): at least the expected number where the level prints it, none where it does not
+\* comparison of observed line counts with the expected ones.  ThreadPoolOverload depends on how long a task waited
+\* between the accept loop and a worker (> 100 ms): on a loaded machine it fires for connections the model does not
+\* expect it for, and a starved accept loop can make it miss the one the model expects.  Its count is therefore free
+\* wherever the level prints it - and zero where the level does not (the mask, not the timing, decides that).
 SeqToSet(s) == { s[i] : i \in 1..Len(s) }
 NOf(S, what) == IF \E x \in S : x.what = what THEN (CHOOSE x \in S : x.what = what).n ELSE 0
 LinesAgree(cfg, enabled, obs, exp) ==
   LET o == { x \in obs : x.what # "ThreadPoolOverload" }   e == { x \in exp : x.what # "ThreadPoolOverload" }
   IN /\ o = e
-     /\ IF enabled /\ Printed(cfg.level, M("ThreadPoolOverload", "")) THEN NOf(obs, "ThreadPoolOverload") >= NOf(exp, "ThreadPoolOverload")
-        ELSE NOf(obs, "ThreadPoolOverload") = 0
+     /\ (enabled /\ Printed(cfg.level, M("ThreadPoolOverload", ""))) \/ NOf(obs, "ThreadPoolOverload") = 0
+     /\ \A x \in obs : x.what = "ThreadPoolOverload" => x.sev = SevOf("ThreadPoolOverload")
 
 \* a cache hit returns what the same (host, path) would be served without the cache (C16's coherence, seen from here)
 CacheCoherent(cfg, conns) ==
